@@ -148,28 +148,35 @@ def ref_eval(dump, assignment):
     memo = {}
 
     def val(root):
-        # explicit stack: the depth of a circuit is not bounded by Python's recursion limit
-        stack = [root]
+        # explicit stack of (label, next operand position): the depth of a circuit is not bounded by Python's
+        # recursion limit; a label met again while it is still open is a cycle
+        if root in memo:
+            return memo[root]
+        open_ = {root}
+        stack = [[root, 0]]
         while stack:
-            l = stack[-1]
-            if l in memo:
-                stack.pop()
-                continue
+            l, k = stack[-1]
             t, ops = gates[l]
             if t == 'INPUT':
                 memo[l] = assignment[l]
+                open_.discard(l)
                 stack.pop()
                 continue
-            todo = [o for o in ops if o not in memo]
-            if todo:
-                if len(stack) > len(gates) + 1:
+            while k < len(ops) and ops[k] in memo:
+                k += 1
+            stack[-1][1] = k
+            if k < len(ops):
+                o = ops[k]
+                if o in open_:
                     raise RecursionError('cyclic netlist handed to the reference evaluator')
-                stack.extend(todo)
+                open_.add(o)
+                stack.append([o, 0])
                 continue
             r = ref_bool(t, [memo[o] for o in ops])
             if r is None:
                 raise ArityError(l)
             memo[l] = r
+            open_.discard(l)
             stack.pop()
         return memo[root]
     return {l: val(l) for l in gates}
